@@ -1102,6 +1102,42 @@ func emit(a *analyzer, funcs []*ssa.Function, out string) {
 		fmt.Fprintf(&sb, "  (%q, %q, [%s])%s\n", r.name, r.method, strings.Join(r.items, ", "), sep)
 	}
 	sb.WriteString("]\n\n")
+	// what the result of every exported Clone may share with its arguments
+	sb.WriteString("/-- (Clone root, [what its result may be or may hold a reference to: (parameter index, type) | (1000, global) | (2000, unknown)]) -/\n")
+	sb.WriteString("def cloneAliases : List (String × List (Nat × String)) := [\n")
+	var crow []string
+	for _, f := range funcs {
+		if !isExportedRoot(f) || f.Name() != "Clone" {
+			continue
+		}
+		s := a.sums[f]
+		var items []string
+		add := func(o obj) {
+			switch o.kind {
+			case 'P':
+				if o.idx < len(f.Params) {
+					items = append(items, fmt.Sprintf("(%d, %q)", o.idx, types.TypeString(f.Params[o.idx].Type(), func(p *types.Package) string { return p.Name() })))
+				} else {
+					items = append(items, "(2000, \"captured variable\")")
+				}
+			case 'G':
+				items = append(items, fmt.Sprintf("(1000, %q)", o.name))
+			case 'U':
+				items = append(items, "(2000, \"unknown\")")
+			}
+		}
+		for o := range s.returns {
+			add(o)
+		}
+		for o := range s.holds {
+			add(o)
+		}
+		sort.Strings(items)
+		crow = append(crow, fmt.Sprintf("  (%q, [%s])", rootName(f), strings.Join(items, ", ")))
+	}
+	sort.Strings(crow)
+	sb.WriteString(strings.Join(crow, ",\n"))
+	sb.WriteString("\n]\n\n")
 	var unk []string
 	for k := range a.extUnknown {
 		unk = append(unk, k)
